@@ -24,6 +24,9 @@ THEOREMS = [
 	'Httoop.Date.hms_roundtrip',
 	'Httoop.Date.compose_shape',
 	'Httoop.Date.date_roundtrip',
+	'Httoop.Date.asctime_roundtrip',
+	'Httoop.Date.rfc850_roundtrip',
+	'Httoop.Date.rfc850_window_witness',
 	'Httoop.Date.weekday_correct',
 	'Httoop.Date.compare_agrees',
 ]
@@ -229,5 +232,5 @@ def finding_still_fails(k):
 
 LEVEL_TEXT = ('Theorems for EVERY whole second in [0, 253402300799]: gmtime/timegm are inverse (the year formula by complete kernel enumeration of the 146 097 days of a 400-year era, lifted to all eras; '
 	'month/day by linear arithmetic), the composed text is the 29-octet IMF-fixdate, parse(compose t) = t, equal texts iff equal instants, weekday by recurrence from Thursday 1970-01-01. '
-	'The model has no time zone, DST or locale input; the correspondence requires the real code to give the one model answer under 6 zones x 2 locales. RFC 850 / asctime round trips: correspondence + kernel-evaluated example, not yet a general theorem.')
+	'The model has no time zone, DST or locale input; the correspondence requires the real code to give the one model answer under 6 zones x 2 locales. The same instant written in asctime form (every instant) or in RFC 850 form (years 1970-2068, all the two-digit year can name; 2069 reads as 1969: rfc850_window_witness) parses back to the instant - theorems too.')
 LEVEL_NOTE = 'Trusted: Lean kernel; the calendar transcription and the three-form reading of parsedate_tz (T2-validated); extract.py/correspondence; libc/zoneinfo behaviour is observed, not modelled (partial by nature, DESIGN.md section 4).'
